@@ -219,4 +219,30 @@ PROPS = {
         "assumptions": ["streams are sampled by seed; truncation and read-error offsets are enumerated completely per short stream",
                         "a reader that panics is outside any contract and is not injected"],
     },
+    "C13": {
+        "engine": "history",
+        "level": "exploration",
+        "design_ref": "DESIGN.md §5 C13",
+        "technique": "deterministic simulation of operation histories: seeded edit/read/read-only sequences on 1-2 documents sharing the process-global caches, concurrent reads inside the seeded scheduler, every view compared with a reference model (fresh decode of the current text) after every step",
+        "level_text": ("Seeded exploration of histories over the public edit API (add/delete/replace child nodes, add individuals and families, set/clear husband and wife by node and "
+                       "by pointer, add children, delete and replace root records) interleaved with plain reads that warm single caches and with read-only operations (Warnings, String, "
+                       "Compare and DiffPage with 1-8 jobs and Publish with 1-8 jobs inside the seeded scheduler, SurroundingSimilarity, CompareNodes+Sort, DeepCopy/Filter into "
+                       "another document, queries). After every step every derived view of every session, normalised to tree positions, must equal the same view of a fresh decode "
+                       "of the session's current text; read-only operations must leave text and views byte-identical; a second session shares the process-global caches."),
+        "level_note": ("Exhaustive enumeration of short histories is not done (seeded sampling only). In one case out of four the views are only compared at the end, so edits also "
+                       "meet cold caches; a failing end state is then attributed by replaying prefixes. Histories that leave the decodable space or create duplicate pointers end "
+                       "without a verdict (counted). The model decode itself resets the process-wide children-by-tag cache; the live views are re-read afterwards to re-warm it."),
+        "rule": ("cases = seeded family-graph documents x operation histories (1-6 operations quick, up to 60 thorough; operation mix, document size and session count vary per "
+                 "case); one evaluation = one applied operation followed by the oracle. distinct_nontrivial = distinct operation-kind sequences of length >= 2."),
+        "tiers": {
+            "quick": {"cases": 3200, "wall_s": 75, "seed": 1, "minimise_s": 40},
+            "thorough": {"cases": 200000, "wall_s": 1500, "seed": 1001, "minimise_s": 120},
+        },
+        "probes_wanted": ["cache_warmed_by_read", "op:node.delete", "op:node.setnodes", "op:doc.delete", "op:doc.setnodes", "op:ro.warnings", "op:ro.compare", "op:ro.publish",
+                          "op:ro.comparenodes", "op:ro.deepcopy", "op:ro.filter", "op:ro.query", "op:ro.diffpage", "op:fam.sethusband.nil", "op:fam.addchild"],
+        "shrink_lists": [["history", "ops"]],
+        "components": comp(["file system for the publish operation: simulated disk", "q (query engine): real, un-instrumented"]),
+        "assumptions": ["histories are sampled by seed, not enumerated",
+                        "the reference model is a fresh decode of Document.String(); decoding itself is C01-C03's subject"],
+    },
 }
